@@ -126,7 +126,7 @@ def verify_b(f):
         counter = 0
         while True:
             extra = b'' if counter == 0 else counter.to_bytes(4, 'little') + bytes(28)
-            kk = I(rfc6979_nonce(d + z + extra))
+            kk = I(rfc6979_nonce(d + (I(z) % N).to_bytes(32, 'big') + extra))  # RFC 6979 3.2d: bits2octets reduces the hash mod n
             rs = ecdsa_sign_k(I(d), I(z) % N, kk)
             if rs is None: return ('HARNESS', 'RFC6979 retry path needed (not modelled)')
             if not grind or rs[0] < 2**255: break
@@ -244,11 +244,20 @@ def verify_a(f):
         px, msg, bits = I(unhex(f[2])), unhex(f[3]), f[4]
         cands = [C.pts[kk][0] for kk in range(1, n)] + list(range(0, 6))
         if len(bits) != len(cands) * (n + 1): return ('HARNESS', 'EV arity')
+        Pt = C.lift_x(px)
+        dpub = C.index.get(Pt) if Pt is not None else None
         i = 0
         for rx in cands:
+            # BIP340 verification for every s at once: R = s*G - e*P must have x == rx and even y
+            e = I(sc.tagged('BIP0340/challenge', sc.b32(rx) + sc.b32(px) + msg)) % n
             for s in range(n + 1):
-                if (bits[i] == '1') != C.schnorr_verify(px, msg, rx, s): return (f'small{n}-schnorr-verify-' + ('accepts' if bits[i] == '1' else 'rejects'), f'pk x={f[2][:16]} rx={rx:x} s={s}')
+                want = False
+                if dpub is not None and rx < sc.P and s < n:
+                    R = C.pts[(s - e * dpub) % n]
+                    want = R is not None and R[1] % 2 == 0 and R[0] == rx
+                if (bits[i] == '1') != want: return (f'small{n}-schnorr-verify-' + ('accepts' if bits[i] == '1' else 'rejects'), f'pk x={f[2][:16]} rx={rx:x} s={s}')
                 i += 1
+        if C.schnorr_verify(px, msg, cands[0], 1) != (bits[1] == '1'): return ('HARNESS', 'EV fast path disagrees with ref_smallcurve.schnorr_verify')
         return None
     if k == 'ET':
         d, res = int(f[2]), f[4].split(',')[:-1]
